@@ -21,7 +21,7 @@ type Case struct {
 func TestMain(m *testing.M) {
 	h.Setup("C12",
 		"rapid state machine: 4 shared Regexps drawn from a pool of 9 (balancing groups, bool-only eligible program, backreference, stack limit 64, 30 ms timeout on a catastrophic pattern, RightToLeft, replacement cache of 2 entries, IgnoreCase lookbehind, Multiline) and histories of about 30 actions (rapid's default step count; a probe action issues one call per shared Regexp) over 13 entry points with inputs that match, fail, hit the stack limit or time out, sized 0-60 runes or padded across the pooled-buffer classes (about 1K / 4K / 16K runes), and replacements from a set of 18; after every action the result (canonical match / output / error class) must equal the same call on a Regexp compiled fresh for that call, and a fixed probe call on every shared Regexp is re-checked every few steps; one evaluation = one call in a history; non-trivial = a call on a Regexp whose earlier history contains a dirtying predecessor (bool call on the bool-only pattern, balancing match, error return, or a larger pooled input before a smaller one); distinct = hash of (history prefix)",
-		map[string]float64{"after-dirtying": 0.4, "error-return": 0.01, "large-input": 0.08, "replacement": 0.03},
+		map[string]float64{"after-dirtying": 0.4, "error-return": 0.01, "large-input": 0.05, "replacement": 0.03},
 		"a disagreement that involves a timeout is re-decided with both timeouts stretched x1, x4, x16 and reported only if it persists at every scale (work close to the timeout is a coin flip on either side)")
 	h.Main(m)
 }
@@ -154,7 +154,44 @@ func TestProp(t *testing.T) {
 			steps++
 			check(genCall(t, c.Specs), true)
 		}
+		// a burst of Replace calls with more distinct replacement strings than the Regexp's parsed-
+		// replacement cache holds (2 for the cache2 spec, 16 by default), then the most recent ones again:
+		// an entry that was inserted by evicting another one must still expand as its own text says
+		bursts := 0
+		burst := func(t *rapid.T) {
+			if bursts > 0 {
+				t.Skip("one burst per history")
+			}
+			bursts++
+			steps++
+			re := rapid.IntRange(0, 3).Draw(t, "burstre")
+			n := len(calls.Replacements)
+			if calls.Pool[c.Specs[re]].Name == "cache2" && rapid.Bool().Draw(t, "burstshort") {
+				n = rapid.IntRange(3, 6).Draw(t, "burstn")
+			}
+			start := rapid.IntRange(0, len(calls.Replacements)-1).Draw(t, "burststart")
+			core := rapid.SampledFrom(calls.Cores).Draw(t, "burstcore")
+			if name := calls.Pool[c.Specs[re]].Name; name != "timeout" && name != "stack64" {
+				if tg := targeted[name]; tg != nil {
+					core = rapid.SampledFrom(tg).Draw(t, "bursttcore")
+				}
+			} else {
+				core = "aaa"
+			}
+			var order []int
+			for i := 0; i < n; i++ {
+				order = append(order, (start+i)%len(calls.Replacements))
+			}
+			again := rapid.IntRange(1, 3).Draw(t, "burstagain")
+			for i := 0; i < again && i < n; i++ {
+				order = append(order, order[n-1-i])
+			}
+			for _, rep := range order {
+				check(calls.Call{Re: re, Kind: "Replace", Core: core, Rep: rep}, true)
+			}
+		}
 		t.Repeat(map[string]func(*rapid.T){
+			"burst": burst,
 			"call": call, "call2": call, "call3": call, "call4": call, "call5": call, "call6": call,
 			"probe": func(t *rapid.T) {
 				steps++
